@@ -9,7 +9,9 @@
   Model: MM/Model/C28.lean = flood.go / agent.go after
     fixes/C28-verify-queued-commands.patch      (QUEUED_STATE commands go through the flooder's checks),
     fixes/C28-timestamp-abs-overflow.patch      (a saturated negative time difference is rejected),
-    fixes/C28-reverify-pending-wake.patch       (a stored wake command is re-verified before it is forwarded).
+    fixes/C28-reverify-pending-wake.patch       (a stored wake command is re-verified before it is forwarded),
+  and fixes/C29-verify-before-mark.patch (verification precedes the seen-cache test-and-set; C28 does
+  not depend on that order).
   Paths: SLEEP_COMMAND frame, WAKE_COMMAND frame, SleepCmd / WakeCmd inside QUEUED_STATE
   (`deliver … via`), and the forwarding of the stored wake command to a newly connected peer
   (`onPeerConnected`).  Signature validity is the abstract predicate `V` (any function).
